@@ -52,6 +52,9 @@ class Ctx:
         self.angvals = {}        # numeric angle atom name -> (s SReal, c SReal)
         self.sign = {}           # atom name -> 'pos' | 'nonneg'
         self.no_fork = False
+        self.bounds = {}         # atom -> (lo, hi) Fractions or None
+        self.poly_lower = {}     # polynomial (without constant term) -> lower bound from an assumption
+        self.poly_upper = {}
         self.max_decisions = 400
         self.feas_timeout = 3000
         self.labels = []
@@ -80,6 +83,7 @@ def new_ctx():
     _CANCEL.clear()
     # pi
     CTX.defs['pi'] = ('pi',)
+    CTX.bounds['pi'] = (Fr('3.14159265358979'), Fr('3.14159265358980'))
     zpi = CTX.zv('pi')
     CTX.facts.append(zpi > z3.RealVal('3.14159265358979'))
     CTX.facts.append(zpi < z3.RealVal('3.14159265358980'))
@@ -444,6 +448,8 @@ class SBool:
             return {'<': x < 0, '<=': x <= 0, '>': x > 0, '>=': x >= 0, '==': x == 0, '!=': x != 0}[op]
         # sign knowledge: products of atoms with known sign
         sg = _known_sign(diff)
+        if sg is None:
+            sg = _interval_sign(diff)
         if sg is not None:
             if sg == 'pos':
                 return {'<': False, '<=': False, '>': True, '>=': True, '==': False, '!=': True}[op]
@@ -628,6 +634,115 @@ def _caller_label():
     return '?'
 
 
+def _fsqrt_lo(c):
+    c = Fr(c)
+    if c <= 0:
+        return Fr(0)
+    S = 10 ** 18
+    return Fr(_math.isqrt(c.numerator * c.denominator * S * S), c.denominator * S)
+
+
+def _fsqrt_hi(c):
+    c = Fr(c)
+    if c <= 0:
+        return Fr(0)
+    S = 10 ** 18
+    return Fr(_math.isqrt(c.numerator * c.denominator * S * S) + 1, c.denominator * S)
+
+
+def _imul(a, b):
+    """interval product; None = unbounded end"""
+    (al, ah), (bl, bh) = a, b
+    if None in (al, ah, bl, bh):
+        # handle the common sign-definite cases, otherwise unbounded
+        if al is not None and al >= 0 and bl is not None and bl >= 0:
+            return (al * bl, None if (ah is None or bh is None) else ah * bh)
+        return (None, None)
+    c = (al * bl, al * bh, ah * bl, ah * bh)
+    return (min(c), max(c))
+
+
+def _ipow(a, e):
+    lo, hi = a
+    if e % 2 == 0:
+        if lo is not None and hi is not None:
+            m = max(abs(lo), abs(hi)) ** e
+            l = Fr(0) if lo <= 0 <= hi else min(abs(lo), abs(hi)) ** e
+            return (l, m)
+        if lo is not None and lo >= 0:
+            return (lo ** e, None)
+        if hi is not None and hi <= 0:
+            return ((-hi) ** e, None)
+        return (Fr(0), None)
+    return (None if lo is None else lo ** e, None if hi is None else hi ** e)
+
+
+def poly_interval(p):
+    """sound enclosure of polynomial p given the recorded bounds of its atoms"""
+    c = CTX
+    lo, hi = Fr(0), Fr(0)
+    for m, k in p.t.items():
+        iv = (Fr(1), Fr(1))
+        for v, e in m:
+            b = c.bounds.get(v)
+            if b is None:
+                sg = c.sign.get(v)
+                b = (Fr(0), None) if sg in ('pos', 'nonneg') else (None, None)
+            iv = _imul(iv, _ipow(b, e))
+        if k > 0:
+            l, h = iv
+        else:
+            l, h = iv[1], iv[0]
+        l = None if l is None else l * k
+        h = None if h is None else h * k
+        lo = None if (lo is None or l is None) else lo + l
+        hi = None if (hi is None or h is None) else hi + h
+        if lo is None and hi is None:
+            return (None, None)
+    # assumptions about a whole polynomial (P >= c recorded by assume)
+    q, c0 = _split_const(p)
+    pl = c.poly_lower.get(q)
+    if pl is not None and (lo is None or pl + c0 > lo):
+        lo = pl + c0
+    pu = c.poly_upper.get(q)
+    if pu is not None and (hi is None or pu + c0 < hi):
+        hi = pu + c0
+    return (lo, hi)
+
+
+def _split_const(p):
+    c0 = p.t.get((), Fr(0))
+    if c0:
+        t = dict(p.t)
+        del t[()]
+        return Poly(t), c0
+    return p, Fr(0)
+
+
+def _interval_sign(x):
+    """'pos'/'neg'/'nonneg'/'nonpos' from interval arithmetic on numerator (denominator constant or of known sign)"""
+    c = CTX
+    if c is None or not c.bounds and not c.poly_lower and not c.poly_upper:
+        return None
+    if x.d.is_const():
+        ds = 1 if x.d.const_val() > 0 else -1
+    else:
+        sgd = _known_sign(SReal(x.d))
+        if sgd == 'pos': ds = 1
+        elif sgd == 'neg': ds = -1
+        else: return None
+    if len(x.n.t) > 400:
+        return None
+    lo, hi = poly_interval(x.n)
+    if ds < 0:
+        lo, hi = (None if hi is None else -hi), (None if lo is None else -lo)
+    if lo is not None and lo > 0: return 'pos'
+    if hi is not None and hi < 0: return 'neg'
+    if lo is not None and lo >= 0: return 'nonneg'
+    if hi is not None and hi <= 0: return 'nonpos'
+    return None
+
+
 def _known_sign(x):
     """sign of a rational function when it is a signed monomial of atoms with known signs"""
     c = CTX
@@ -698,6 +813,38 @@ def assume(b):
         raise Infeasible()
     CTX.assume.append(b.z3())
     CTX.assume_sb.append(b)
+    _record_bound(b)
+
+
+def _record_bound(b):
+    """remember  P >= c / P <= c  for whole polynomials and single atoms (interval reasoning)"""
+    if not isinstance(b, SBool):
+        return
+    if b.k == 'and':
+        _record_bound(b.a); _record_bound(b.b)
+        return
+    if b.k != 'cmp' or b.a not in ('>=', '>', '<=', '<') or not b.b.d.is_const():
+        return
+    p = b.b.n.scale(1 / b.b.d.const_val())
+    q, c0 = _split_const(p)
+    if q.is_zero():
+        return
+    # normalise the leading coefficient to +1 / -1 scale so that k*P >= c is recorded for P
+    if b.a in ('>=', '>'):
+        CTX.poly_lower[q] = max(CTX.poly_lower.get(q, -c0), -c0)      # q + c0 >= 0
+    else:
+        CTX.poly_upper[q] = min(CTX.poly_upper.get(q, -c0), -c0)
+    if q.is_monomial():
+        (m, k), = q.t.items()
+        if len(m) == 1 and m[0][1] == 1:
+            v = m[0][0]
+            lo, hi = CTX.bounds.get(v, (None, None))
+            bound = -c0 / k
+            if (b.a in ('>=', '>')) == (k > 0):
+                lo = bound if lo is None else max(lo, bound)
+            else:
+                hi = bound if hi is None else min(hi, bound)
+            CTX.bounds[v] = (lo, hi)
 
 
 # ---- inputs --------------------------------------------------------------------------------
@@ -709,6 +856,8 @@ def input_real(name, lo=None, hi=None, sampler=None):
         raise EngineError('input names must be alphanumeric: ' + name)
     c.defs[name] = ('input',)
     c.inputs[name] = ('real', lo, hi, sampler)
+    if lo is not None or hi is not None:
+        c.bounds[name] = (None if lo is None else Fr(lo), None if hi is None else Fr(hi))
     v = SReal.var(name)
     if lo is not None:
         assume(v >= lo)
@@ -741,6 +890,10 @@ def sabs(a):
         CTX.atoms[key] = nm
         CTX.defs[nm] = ('abs', a)
         CTX.sign[nm] = 'nonneg'
+        if a.d.is_const():
+            lo_, hi_ = poly_interval(a.n.scale(1 / a.d.const_val()))
+            if lo_ is not None and hi_ is not None:
+                CTX.bounds[nm] = (Fr(0) if lo_ <= 0 <= hi_ else min(abs(lo_), abs(hi_)), max(abs(lo_), abs(hi_)))
         zm = CTX.zv(nm)
         if a.d.is_const():
             za = a.z3()
@@ -776,6 +929,13 @@ def _sqrt_basic(x):
         CTX.atoms[key] = nm
         CTX.defs[nm] = ('sqrt', x)
         CTX.sign[nm] = 'nonneg' if not x.is_const() else 'pos'
+        if x.d.is_const():
+            lo_, hi_ = poly_interval(x.n.scale(1 / x.d.const_val()))
+            blo = _fsqrt_lo(lo_) if lo_ is not None else Fr(0)
+            bhi = _fsqrt_hi(hi_) if hi_ is not None else None
+            CTX.bounds[nm] = (blo, bhi)
+            if blo > 0:
+                CTX.sign[nm] = 'pos'
         zr = CTX.zv(nm)
         CTX.facts.append(zr >= 0)
         if x.d.is_const():
@@ -912,6 +1072,8 @@ def _angle_atoms(m, b):
     sn, cn = 's_' + nm, 'c_' + nm
     c.defs[sn] = ('sin', m, B)
     c.defs[cn] = ('cos', m, B)
+    c.bounds[sn] = (Fr(-1), Fr(1))
+    c.bounds[cn] = (Fr(-1), Fr(1))
     c.rules.add_pure(cn, 2, ONE - Poly.var(sn) * Poly.var(sn))
     zs, zc = c.zv(sn), c.zv(cn)
     c.facts.append(zs * zs + zc * zc == 1)
@@ -1051,6 +1213,12 @@ def _reg_angle(prefix, kind, args, s, c, lo=None, hi=None, lo_strict=False, hi_s
         F.append(z > lo.z3() if lo_strict else z >= lo.z3())
     if hi is not None:
         F.append(z < hi.z3() if hi_strict else z <= hi.z3())
+    try:
+        bl = poly_interval(lo.n.scale(1 / lo.d.const_val()))[0] if lo is not None and lo.d.is_const() else None
+        bh = poly_interval(hi.n.scale(1 / hi.d.const_val()))[1] if hi is not None and hi.d.is_const() else None
+        CTX.bounds[nm] = (bl, bh)
+    except Exception:
+        pass
     return A
 
 
